@@ -164,13 +164,14 @@ prop("C14",
 
 prop("C19",
      trusted_base=["hand model Model/Socket.lean: SOCK_SEQPACKET queue, kernel recvmsg truncation (data and control; descriptors that fit are installed even when the message is truncated), SCM_MAX_FD, and the library's SendMsg/RecvMsg with the receiver's descriptor ledger",
+                   "hand model Model/Gob.lean of the gob-framed layer (container/socket_linux.go): one encoder and one decoder per socket, type descriptors emitted at first use only, one datagram per message, the 32 KiB cap checked after encoding; tied to the regenerated (*socket).SendMsg/RecvMsg by C19_tie_gob (kernel-evaluated over every history of length <= 4) and to the real encoder/decoder by the per-history differential (both protocol types, several messages in flight, receives on an empty queue)",
                    "tie: the regenerated RecvMsg/parseMsg (Gen.C19) evaluated by the kernel on the kernel's possible answers (C19_tie_recv: credentials before rights, truncation flags, 0..3 descriptors); per-operation differential on real socketpairs (bytes, (dev,ino) and FD_CLOEXEC of every received descriptor, Ucred, process descriptor count after every operation)"],
      assumptions=["kernel SEQPACKET/SCM semantics as modelled; Go's ReadMsgUnix sets MSG_CMSG_CLOEXEC",
                   "open known findings: (1) a zero-length payload is not delivered transparently (net.UnixConn pads it with a dummy byte when control data is attached, and it reads as EOF otherwise); (2) gob layer: an oversize (unsent) message that was the first use of its type leaves the encoder ahead of the decoder and every later message undecodable — unreachable from the container package, whose first messages (ping/conf and their replies) are small"],
-     not_covered="the gob framing is covered by the differential only (the model has no gob)",
-     level_text="Theorems over all histories and buffer sizes on the socket model: a receive hands over exactly one sent message (bytes, files in order, credentials) or rejects it without delivering data; with large enough buffers receives are the sends in FIFO order; more than SCM_MAX_FD descriptors are refused by the sender; no descriptor installed by the kernel stays open unaccounted (witness for the pinned tree's leak); differential on real socketpairs incl. 252/253/254 descriptors and buffer±1 payloads, receives with a full descriptor table, full-duplex exchanges on one Socket value; gob layer around the 32 KiB cap",
+     not_covered="encoding/gob's byte format itself (the model abstracts a message to its type descriptors and its value; which descriptors the two protocol types need is a table in Model/DriverC19.lean, compared with the real encoder/decoder on every run)",
+     level_text="Theorems over all histories and buffer sizes on the socket model: a receive hands over exactly one sent message (bytes, files in order, credentials) or rejects it without delivering data; with large enough buffers receives are the sends in FIFO order; more than SCM_MAX_FD descriptors are refused by the sender; no descriptor installed by the kernel stays open unaccounted (witness for the pinned tree's leak); differential on real socketpairs incl. 252/253/254 descriptors and buffer±1 payloads, receives with a full descriptor table, full-duplex exchanges on one Socket value; gob-framed layer: theorem for every configuration of message types and every history whose first uses fit the cap — no receive fails to decode and received ++ in flight = accepted sends in order; a rejected send leaves queue and decoder untouched; witness that the hypothesis is necessary (the open finding); regenerated SendMsg/RecvMsg tied to the model; histories of both protocol types around the 32 KiB cap against the real code and the model",
      level_note="Trusted: Lean kernel; hand model tied by differential; kernel socket semantics assumed. Two open known findings (zero-length payload, gob unsent-oversize first use)",
-     technique="Lean 4 proofs by induction over operation histories + differential correspondence on real socketpairs")
+     technique="Lean 4 proofs by induction over operation histories (socket model, gob stream model) + decide +kernel on regenerated Go-lite code + differential correspondence on real socketpairs")
 
 prop("C13",
      trusted_base=["Go-lite runs of the regenerated handleReset and DupToMemfd (Gen.C13) against small worlds; hand model `reset` of the mount-table walk; memfd seal semantics table Model/Reset.denied",
